@@ -5,7 +5,7 @@ import (
 	"github.com/markusressel/fan2go/internal/zzv"
 )
 
-//zzv:bound M1 = linear curves (min/max and non-decreasing step lists from the documented family, constants), real Evaluate twice: for all pairs T1 <= T2 of integer milli-degree temperatures in +-2^21 the curve value does not decrease
+//zzv:bound M1 = linear curves (min/max and non-decreasing step lists from the documented family incl. lists with negative temperatures, constants; quick tier: the lists with up to three steps, thorough: all), real Evaluate twice: for all pairs T1 <= T2 of integer milli-degree temperatures in +-2^21 the curve value does not decrease
 //zzv:bound M2 = sum / maximum / minimum / average function curves over 1..4 (thorough 1..8) members: member-wise a_i <= b_i (ints 0..255) implies F(a) <= F(b)
 //zzv:outside configurations outside the family (a fully symbolic configuration does not finish within the cap and is not claimed); difference and delta (not monotone by design); temperatures beyond +-2097 degrees
 //zzv:opts fptimeout_quick=240
@@ -38,7 +38,11 @@ func ZZ_C07_M1_MinMax() {
 }
 
 func ZZ_C07_M1_Steps() {
-	zzMonotonePair(0, 0, zzStepFamily[zzv.Choice("steps", len(zzStepFamily))])
+	if zzv.Thorough() {
+		zzMonotonePair(0, 0, zzStepFamily[zzv.Choice("steps", len(zzStepFamily))])
+		return
+	}
+	zzMonotonePair(0, 0, zzStepFamily[zzStepQuick[zzv.Choice("steps", len(zzStepQuick))]])
 }
 
 var zzMonoTypes = []string{configuration.FunctionSum, configuration.FunctionMaximum, configuration.FunctionMinimum, configuration.FunctionAverage}
